@@ -158,6 +158,7 @@ func Explain(program *analysis.ProgramInfo, store factstore.ReadOnlyFactStore, g
 		store:   store,
 		opts:    opts,
 		cache:   make(map[uint64][]*ProofNode),
+		cacheAt: make(map[uint64]int),
 		onStack: make(map[uint64]int),
 		ruleIDs: make(map[int]string),
 		minCut:  noCut,
@@ -176,6 +177,8 @@ type explainer struct {
 	// cache memoizes proofs per ground goal hash. Avoids recomputing proofs
 	// of facts that appear as premises in multiple parent proofs.
 	cache map[uint64][]*ProofNode
+	// cacheAt is the depth at which a memoized result was computed.
+	cacheAt map[uint64]int
 	// onStack tracks goals currently being proved to break cycles; the value
 	// is the goal's position on the stack.
 	onStack map[uint64]int
@@ -195,7 +198,9 @@ func (e *explainer) explain(goal ast.Atom, depth int) []*ProofNode {
 	// taint is the stack position of a goal being proved on which the
 	// result computed here depends (noCut if none).
 	taint := noCut
-	if cached, ok := e.cache[h]; ok {
+	// A proof that was truncated at MaxDepth is not reused higher up, where
+	// more of it fits.
+	if cached, ok := e.cache[h]; ok && (depth >= e.cacheAt[h] || !anyPartial(cached)) {
 		taint = minStackPos(cached, e.onStack, map[*ProofNode]bool{})
 		if taint == noCut {
 			return cached
@@ -284,12 +289,22 @@ func (e *explainer) explain(goal ast.Atom, depth int) []*ProofNode {
 		e.minCut = taint
 	}
 	if e.minCut >= myPos {
-		e.cache[h] = proofs
+		e.cache[h], e.cacheAt[h] = proofs, depth
 	}
 	if outerCut < e.minCut {
 		e.minCut = outerCut
 	}
 	return proofs
+}
+
+// anyPartial reports whether one of the proofs is partial.
+func anyPartial(proofs []*ProofNode) bool {
+	for _, p := range proofs {
+		if p.Partial {
+			return true
+		}
+	}
+	return false
 }
 
 // noCut is the value of minCut when no cycle cut happened.
